@@ -468,7 +468,13 @@ func (g *gen) garbage() string {
 
 // deep nesting / long inputs up to 256 characters
 func (g *gen) stress() string {
-	switch g.rnd.Intn(5) {
+	switch g.rnd.Intn(8) {
+	case 5:
+		return "$" + strings.Repeat("[*,*,*]", 1+g.rnd.Intn(36))
+	case 6:
+		return "$" + strings.Repeat([]string{"[*,*]", "['a','b']", "[*,'a']"}[g.rnd.Intn(3)], 1+g.rnd.Intn(50))
+	case 7:
+		return "$.." + strings.Repeat("['a','b']", 1+g.rnd.Intn(28)) + ".c"
 	case 0:
 		d := 2 + g.rnd.Intn(40)
 		return "$" + strings.Repeat("[?(@", d) + ".a" + strings.Repeat(")]", d)
